@@ -59,20 +59,22 @@ func c04Consistent(b *board.Board) string {
 }
 
 type c04Walker struct {
-	r       *ev.Run
-	b       *board.Board
-	rootFEN string
-	rootKey refchess.Key
-	rootRaw bool // the root FEN carries an en-passant target that cannot be captured
-	rootHash board.Hash
-	path    []string
-	table   map[refchess.Key]board.Hash
-	byHash  map[board.Hash]int
+	r                                       *ev.Run
+	b                                       *board.Board
+	rootFEN                                 string
+	rootKey                                 refchess.Key
+	rootRaw                                 bool // the root FEN carries an en-passant target that cannot be captured
+	rootHash                                board.Hash
+	path                                    []string
+	table                                   map[refchess.Key]board.Hash
+	byHash                                  map[board.Hash]int
 	nodes, transHits, nullMoves, collisions *atomic.Int64
-	maxNull int
+	maxNull                                 int
 }
 
-func (w *c04Walker) c() c04Case { return c04Case{FEN: w.rootFEN, Moves: append([]string(nil), w.path...)} }
+func (w *c04Walker) c() c04Case {
+	return c04Case{FEN: w.rootFEN, Moves: append([]string(nil), w.path...)}
+}
 
 func (w *c04Walker) setRoot(p *refchess.Pos) {
 	w.rootKey = p.Key()
